@@ -225,7 +225,12 @@ class Vector(MutableSequence[TScalar]):
 
     @classmethod
     def _unpickle(cls, args: tuple[Any, ...], kwargs: dict[str, Any]) -> Self:
-        return cls(*args, **kwargs)
+        # Restore the pickled value type instead of re-deriving it from the first value: an int
+        # vector may hold bool values (bool is a subclass of int).
+        (values,) = args
+        self = cls([], **kwargs)
+        self._values = list(values)
+        return self
 
     def __repr__(self) -> str:
         """Return repr(self)."""
